@@ -207,7 +207,11 @@ def pack(I, fmt, args):
 
 def unpack(I, fmt, data):
     items, big, total = parse_format(I, fmt)
-    if isinstance(data, SSeq):
+    if isinstance(data, SView):
+        if not I.path.decide(ops.zi(data.ln) == total):
+            I.raise_py('struct.error', 'unpack requires a buffer of %d bytes' % total)
+        bs = [ops.view_elem(I, data, i) for i in range(total)]
+    elif isinstance(data, SSeq):
         n = z3.Length(data.t)
         if not I.path.decide(n == total):
             I.raise_py('struct.error', 'unpack requires a buffer of %d bytes' % total)
